@@ -140,7 +140,8 @@ theorem targets_zero_or_alive_world (ops : List Op) (hlen : ops.length < 2 ^ 16)
 
 /-- **rejected** — a step of the machine (`guard`) whose precondition (`pre`, a statement about
     the specification only) fails: the model panics with the world unchanged, and the whole
-    machine state is unchanged.  This includes a dead target named through a typed path. -/
+    machine state is unchanged.  This includes a dead target named through any path (`Unsafe`
+    too, since the repair of its relation validation). -/
 theorem rejected (ops : List Op) (op : Op) (hlen : ops.length + 1 < 2 ^ 16)
     (hg : guard (reach run cap rel ops) op = true) (hnp : ¬ pre (reach run cap rel ops).ss op) :
     (∃ k, exec run (reach run cap rel ops).w op = .panic k (reach run cap rel ops).w) ∧
@@ -858,8 +859,8 @@ theorem dead_of_unspecified (ops : List Op) (hlen : ops.length < 2 ^ 16) (h : En
   | true =>
     exact absurd ((alive_iff_specified run cap rel ops hlen h hi).mp ha) (find_none_iff.mp hn)
 
-/-- **dead target, `NewEntity`** — in every reachable state, through ANY path (also `Unsafe`,
-    which is not a step of the machine for such a call): a `NewEntity` with well-formed relation
+/-- **dead target, `NewEntity`** — in every reachable state, through ANY path, whether or not
+    the target is a handle the client was given: a `NewEntity` with well-formed relation
     arguments that names a dead target is not accepted -/
 theorem dead_target_not_accepted_new (ops : List Op) (hlen : ops.length + 1 < 2 ^ 16) (p : Path)
     (ids : List Comp) (vals : Comps) (rels : Rels)
@@ -951,14 +952,14 @@ theorem any_access_path (ops : List Op) (op : Op) (q : Path) (hlen : ops.length 
     | del e => exact ⟨hg, rfl⟩
     | new p ids vals rels =>
       have hg' : ((∀ c ∈ ids, c < (reach run cap rel ops).ss.zst.length) ∧
-          RelsWF (reach run cap rel ops).ss.isRel ids rels) ∧
-          relsExpr (reach run cap rel ops) p rels = true := by
+          RelsStep (reach run cap rel ops).ss.isRel p ids rels) ∧
+          tgtsExpr (reach run cap rel ops) rels = true := by
         simpa only [guard, Bool.and_eq_true, List.all_eq_true, decide_eq_true_eq] using hg
-      obtain ⟨⟨hreg, hwf⟩, hx⟩ := hg'
-      obtain ⟨hnd, _, _, hv⟩ := hp
+      obtain ⟨⟨hreg, _⟩, hx⟩ := hg'
+      obtain ⟨hnd, _, hwf, hv⟩ := hp
       refine ⟨?_, ?_⟩
       · simp only [Op.withPath, guard, Bool.and_eq_true, List.all_eq_true, decide_eq_true_eq]
-        exact ⟨⟨hreg, hwf⟩, relsExpr_iff.mpr ⟨(relsExpr_iff.mp hx).1, fun _ => hv⟩⟩
+        exact ⟨⟨hreg, hwf.relsStep q⟩, hx⟩
       · simp only [Op.withPath, exec]
         rw [opNewEntity_rel_path_indep run q p H.tinv H.unlocked H.noObs hnd
           (fun c hc => by rw [← H.zlen]; exact hreg c hc) hwf.1 (fun r hr => (hwf.2.1 r hr).1)
@@ -967,18 +968,18 @@ theorem any_access_path (ops : List Op) (op : Op) (q : Path) (hlen : ops.length 
     | add p e ids vals rels =>
       have hg' : ((e ∈ (reach run cap rel ops).issued ∧
           ∀ c ∈ ids, c < (reach run cap rel ops).ss.zst.length) ∧
-          RelsWF (reach run cap rel ops).ss.isRel ids rels) ∧
-          relsExpr (reach run cap rel ops) p rels = true := by
+          RelsStep (reach run cap rel ops).ss.isRel p ids rels) ∧
+          tgtsExpr (reach run cap rel ops) rels = true := by
         simpa only [guard, Bool.and_eq_true, List.all_eq_true, decide_eq_true_eq] using hg
-      obtain ⟨⟨⟨hi, hreg⟩, hwf⟩, hx⟩ := hg'
-      obtain ⟨en, hf, ⟨hne, hnd, hall⟩, _, hv⟩ := hp
+      obtain ⟨⟨⟨hi, hreg⟩, _⟩, hx⟩ := hg'
+      obtain ⟨en, hf, ⟨hne, hnd, hall⟩, hwf, hv⟩ := hp
       have hm := find_some_mem hf
       obtain ⟨_, ha, h2, hnf, _, hsl0⟩ := H.live_facts hm
       have hsl := Pool.lt_of_slot hsl0
       have ok := H.ok e en hm
       refine ⟨?_, ?_⟩
       · simp only [Op.withPath, guard, Bool.and_eq_true, List.all_eq_true, decide_eq_true_eq]
-        exact ⟨⟨⟨hi, hreg⟩, hwf⟩, relsExpr_iff.mpr ⟨(relsExpr_iff.mp hx).1, fun _ => hv⟩⟩
+        exact ⟨⟨⟨hi, hreg⟩, hwf.relsStep q⟩, hx⟩
       · simp only [Op.withPath, exec]
         rw [opAdd_rel_path_indep run q p H.tinv H.unlocked H.noObs h2 hnf ha hsl hne hnd
           (fun c hc => by rw [← H.zlen]; exact hreg c hc)
